@@ -60,6 +60,18 @@ Theorem C08_script_characterisation :
 Proof. exact script_lemma. Qed.
 Print Assumptions C08_script_characterisation.
 
+(* 2'. The same with the simple side condition: the segments of the stream AS A WHOLE (framed
+   without any flush) are at most b bytes - flushes only make segments shorter.  For every
+   connection script (reads and flushes in any order, then the close). *)
+Theorem C08_script_characterisation_stream :
+  forall (test : bytes -> bool) (min_buf limit b : nat) (ops : list op),
+  test [] = false -> 1 <= limit -> 2 * b + 1 + limit <= Nat.max min_buf (limit * 3) ->
+  no_flush_all ops -> seg_bound test b (ops_text ops) ->
+  exists st', run_ops test (ops ++ [OpFlushAll]) (new_mlr min_buf limit) [] =
+              Ok (st', spec_ops test [] (ops ++ [OpFlushAll])).
+Proof. exact script_stream_lemma. Qed.
+Print Assumptions C08_script_characterisation_stream.
+
 (* 3. Flush-timing independence for streams of single-line records: if every line is a
    non-empty record start of at most b bytes, then EVERY interleaving of reads (any
    fragmentation) and flushes (any positions, any number), followed by the close, delivers
@@ -88,6 +100,27 @@ Theorem C08_continuation_attached :
     In (l ++ NL :: c ++ more) out.
 Proof. exact continuation_attached_lemma. Qed.
 Print Assumptions C08_continuation_attached.
+
+(* 4'. The third sentence of the property at full strength: flushes may fall anywhere EXCEPT
+   between the arrival of the end of the start line l = l1 ++ l2 and the end of the continuation
+   line c (the reads fs, any fragmentation, bring the rest of l, c and whatever follows without
+   a flush in between; ops1 - reads and flushes - ends somewhere inside or just before l,
+   ops2 is arbitrary, then the connection closes): l and c come out in one record. *)
+Theorem C08_continuation_attached_flushes :
+  forall (test : bytes -> bool) (min_buf limit b : nat) (ops1 : list op) (fs : list bytes) (ops2 : list op)
+         (x l1 l2 c z : bytes),
+  test [] = false -> (forall a y, test a = true -> test (a ++ y) = true) ->
+  1 <= limit -> 2 * b + 1 + limit <= Nat.max min_buf (limit * 3) ->
+  no_flush_all ops1 -> no_flush_all ops2 ->
+  seg_bound test b (ops_text (ops1 ++ map OpRead fs ++ ops2)) ->
+  ops_text ops1 = x ++ l1 -> (x = [] \/ exists x', x = x' ++ [NL]) ->
+  concat fs = l2 ++ NL :: c ++ NL :: z ->
+  nonl (l1 ++ l2) -> is_start test (l1 ++ l2) = true -> nonl c -> is_start test c = false ->
+  exists st' out more,
+    run_ops test (ops1 ++ map OpRead fs ++ ops2 ++ [OpFlushAll]) (new_mlr min_buf limit) [] = Ok (st', out) /\
+    In ((l1 ++ l2) ++ NL :: c ++ more) out.
+Proof. exact continuation_flushes_stream_lemma. Qed.
+Print Assumptions C08_continuation_attached_flushes.
 
 (* ... and theorem 4 needs its "no flush" (documentation of the boundary of the property, not a
    finding): a flush between a record and its continuation line detaches the line. *)
@@ -183,3 +216,17 @@ Theorem C08_example :
              Ok (st, [ex_r1 ++ NL :: ex_c1; ex_r2]).
 Proof. exact example_lemma. Qed.
 Print Assumptions C08_example.
+
+(* ... and the hypotheses of theorems 2' and 4' (scripts with flushes): the same stream with a
+   flush inside the first header and another one after the head of the second record. *)
+Theorem C08_example_flushes :
+  trs [] = false /\ no_flush_all ex_ops1 /\ no_flush_all ex_ops2 /\
+  seg_bound trs 64 (ops_text (ex_ops1 ++ map OpRead ex_fs ++ ex_ops2)) /\
+  ops_text ex_ops1 = [] ++ firstn 3 ex_r1 /\
+  concat ex_fs = skipn 3 ex_r1 ++ NL :: ex_c1 ++ NL :: firstn 9 ex_r2 /\
+  nonl (firstn 3 ex_r1 ++ skipn 3 ex_r1) /\ is_start trs (firstn 3 ex_r1 ++ skipn 3 ex_r1) = true /\
+  nonl ex_c1 /\ is_start trs ex_c1 = false /\
+  exists st, run_ops trs (ex_ops1 ++ map OpRead ex_fs ++ ex_ops2 ++ [OpFlushAll]) (new_mlr 256 64) [] =
+             Ok (st, [ex_r1 ++ NL :: ex_c1; ex_r2]).
+Proof. exact example_flush_lemma. Qed.
+Print Assumptions C08_example_flushes.
